@@ -64,7 +64,8 @@ CLAIMED.update({
              "the same predicates are evaluated on every provider call, binding and key change."),
  "C18": dict(cat="exploration", ref="DESIGN.md 6 C18",
    text="Narrow claim. Words.tla: TLC checks termination and exactness of the address-walking loop and the adjacency test for all W-bit words; every FipConf vector is run through the real ConfigurePool at the top of the IPv4 space under a "
-        "watchdog; every operation of the IPAM-family traces runs under the scheduler watchdog with panic capture. Byte-level parser robustness is not decided by this technique.",
+        "watchdog; every operation of the IPAM-family traces (filter, preempt, bind, release events, resync, APIs, reload; pods with void argument annotations) runs under the scheduler watchdog with panic capture and deadlock detection; "
+        "random NetworkPolicy / pod event histories (every policyTypes, peer and port form of the policy universe) run through the real PolicyManager. Byte-level parser robustness is not decided by this technique.",
    note="Not covered: arbitrary byte strings at the parsing surfaces (a fuzzer's job), the galaxy daemon's typed surfaces beyond what the C12 driver exercises.",
    tech="TLA+ spec of the W-bit loops checked by TLC (liveness) + watchdog/panic observation of real-code executions"),
  "C20": dict(cat="model_checking", ref="DESIGN.md 6 C20",
@@ -115,8 +116,10 @@ CLAIMED["C15"] = dict(cat="model_checking", ref="DESIGN.md 6 C15", note=POL_NOTE
         "(galaxy-owned names vs foreign chains, rules and sets). The real PolicyManager is driven over a strict in-memory kernel through histories of policy/pod/namespace edits (handled or lost), "
         "process restarts, transient kernel failures and repeated full synchronisations, starting from kernels preloaded with foreign state and unexplained GLX-* garbage; TLC evaluates on every recorded line "
         "SyncExact (owned state = Derived after a fault-free synchronisation), Idempotent, ForeignUntouched and NoDanglingBatch (the kernel model refuses and records any submission that references a missing chain or set). "
-        "MC_NetPol checks exhaustively over a small universe that Derived is well formed (references only what it derives).",
-   tech="TLA+ spec of the compilation scheme evaluated by TLC on traces of real-code executions over a strict kernel model + exhaustive TLC check of the scheme on a small universe")
+        "PolicyManager.tla gives every pass and handler as a transition of the kernel state (what is submitted, in which order, what the kernel refuses): every recorded step of the real code must equal the model's step, "
+        "and MC_PolicyManager checks over all histories of <= 9 actions of a small universe that foreign state never changes and that every synchronisation ends exact or in one of the two known shapes "
+        "(and that the three-phase synchronisation proposed as their repair always ends exact). MC_NetPol checks exhaustively over a small universe that Derived is well formed (references only what it derives).",
+   tech="TLA+ behaviour spec of the manager (one transition per pass/handler) model-checked by TLC + step-by-step conformance and property evaluation by TLC on traces of real-code executions over a strict kernel model")
 CLAIMED["C16"] = dict(cat="model_checking", ref="DESIGN.md 6 C16", note=POL_NOTE,
    text="NetPol.tla states the Kubernetes NetworkPolicy semantics of a new connection (K8sAllows) and the verdict of a filter table (Walk: first match, jumps and returns, ipset membership with nomatch). "
         "MC_NetPol proves by exhaustive enumeration (every cluster of two pods and one policy built from every peer and port form) that galaxy's scheme without its named departures gives exactly the API verdict, "
